@@ -20,7 +20,7 @@
      arrives (the copies of a slice header share the backing array);
    - a map is shared by reference: every map carries an identity [id] and a
      late write (forward reference in value position) is applied to every copy;
-   - pointer values (*big.Int, *big.Float, *apd.Decimal, *url.URL) carry an
+   - pointer values ( *big.Int, *big.Float, *apd.Decimal, *url.URL ) carry an
      identity [ptr] because Go compares map keys of pointer type by address;
    - types.Node is a struct copied by value: whoever stores a node takes a
      snapshot ([snap]); the marker table, the receiver's result slot and the
@@ -81,6 +81,34 @@ Fixpoint dehole (v : uval) : uval :=
   | UNode a ch => UNode (dehole a) (map dehole ch)
   | UEdge a b c => UEdge (dehole a) (dehole b) (dehole c)
   | _ => v
+  end.
+
+Fixpoint has_hole (v : uval) : bool :=
+  match v with
+  | UHole _ => true
+  | UList l => existsb has_hole l
+  | UMap _ kvs => existsb (fun '(a, b) => has_hole a || has_hole b) kvs
+  | UNode a ch => has_hole a || existsb has_hole ch
+  | UEdge a b c => has_hole a || has_hole b || has_hole c
+  | _ => false
+  end.
+
+(* a map that contains itself: the model unrolls it once *)
+Fixpoint contains_map (id : N) (v : uval) : bool :=
+  match v with
+  | UList l => existsb (contains_map id) l
+  | UMap i kvs => (i =? id) || existsb (fun '(a, b) => contains_map id a || contains_map id b) kvs
+  | UNode a ch => contains_map id a || existsb (contains_map id) ch
+  | UEdge a b c => contains_map id a || contains_map id b || contains_map id c
+  | _ => false
+  end.
+Fixpoint self_nested (v : uval) : bool :=
+  match v with
+  | UList l => existsb self_nested l
+  | UMap i kvs => existsb (fun '(a, b) => contains_map i a || contains_map i b || self_nested a || self_nested b) kvs
+  | UNode a ch => self_nested a || existsb self_nested ch
+  | UEdge a b c => self_nested a || self_nested b || self_nested c
+  | _ => false
   end.
 
 (* copying a value out of the builder that owns it: the Value field of a node
@@ -159,14 +187,14 @@ Definition two64 : N := 18446744073709551616.
 
 (* BuilderEventReceiver.OnNegativeInt: "negZero" is the constant expression
    -float64(0), which Go evaluates exactly: it is +0.  Magnitudes beyond int64
-   go through big.Int.SetUint64, which is non-negative. *)
+   become a negated big.Int. *)
 Definition negint_scalar (n : N) : scalar :=
   if n =? 0 then SFloat 0
   else if n <=? max_int64 then SInt (- Z.of_N n)
-  else SBigInt (Some (Z.of_N n)).
+  else SBigInt (Some (- Z.of_N n)%Z).
 
 Section Lib.
-  (* url.Parse(text): None = error; Some s = (*url.URL).String() of the result *)
+  (* url.Parse(text): None = error; Some s = the String() of the resulting URL *)
   Variable url_conv : bytes -> option bytes.
   (* compact_time.Time.AsGoTime: None = error (the compact time itself is stored);
      Some (ident, out): ident identifies the time.Time value up to Go's ==,
@@ -392,8 +420,11 @@ Section Lib.
           else if i =? 2 then done_to f (UEdge (snap a) (snap b) (snap v)) (set_stack st below)
           else RPanic st
       | FMarker id isc =>
+          (* the value registered is the one handed on; a setter that just ran may have
+             written into it (a container referring to itself) *)
           if isc then rbind (notify_marker id v st)
-                            (fun st1 => done_to f v (set_stack st1 (tl (stack st1))))
+                            (fun st1 => done_to f (match lookup_marked id (marked st1) with Some v' => v' | None => v end)
+                                                (set_stack st1 (tl (stack st1))))
           else RPanic st
       | FRecType => RPanic st
       end
@@ -402,9 +433,9 @@ Section Lib.
   Definition notify_done (v : uval) (st : mstate) : res := done_to (length (stack st)) v st.
 
   (* ---- a value event reaching the frame [fr]; [above] are the markers it came through ---- *)
-  Fixpoint recv_scalar (sc : scalar) (above : list frame) (fr : frame) (below : list frame) (st : mstate) : res :=
-    let p := next st in
-    let st := bump st in
+  Fixpoint recv_scalar (sc : scalar) (above : list frame) (fr : frame) (below : list frame) (st0 : mstate) : res :=
+    let p := next st0 in
+    let st := bump st0 in
     let here := set_stack st (above ++ fr :: below) in
     match fr with
     | FRecType =>
@@ -421,9 +452,11 @@ Section Lib.
                         (rt_old st ++ [rt_back st]) (rt_tab st))
         end
     | FMarker id isc =>
+        (* object := child.BuildFromXxx(...); onObjectFinished: unless a container was begun
+           under this marker, pop the current builder and register the object *)
         match below with
         | child :: below' =>
-            rbind (recv_scalar sc (above ++ [FMarker id isc]) child below' st)
+            rbind (recv_scalar sc (above ++ [FMarker id isc]) child below' st0)
                   (fun st1 =>
                      if isc then ROk st1
                      else match conv p sc with
@@ -467,14 +500,14 @@ Section Lib.
       end
     end.
 
-  Fixpoint recv_begin (k : ckind) (above : list frame) (fr : frame) (below : list frame) (st : mstate) : res :=
-    let p := next st in
-    let st := bump st in
+  Fixpoint recv_begin (k : ckind) (above : list frame) (fr : frame) (below : list frame) (st0 : mstate) : res :=
+    let p := next st0 in
+    let st := bump st0 in
     match fr with
     | FRecType => RPanic (set_stack st (above ++ fr :: below))
     | FMarker id _ =>
         match below with
-        | child :: below' => recv_begin k (above ++ [FMarker id true]) child below' st
+        | child :: below' => recv_begin k (above ++ [FMarker id true]) child below' st0
         | [] => RPanic (set_stack st (above ++ fr :: below))
         end
     | _ =>
@@ -526,7 +559,14 @@ Section Lib.
             (* key := _this.key; swapKeyValue(); the setter stores under that key *)
             let st1 := set_stack st (FMap id kvs key (negb w) rc :: below) in
             match lookup_marked rid (marked st) with
-            | Some v => run_setter (SMapSet id key) v st1
+            | Some v =>
+                (* the setter runs at once, on this builder's own map (nobody else holds it yet) *)
+                match key with
+                | Some k => if hashable k
+                            then ROk (set_stack st (FMap id (assoc_set k (snap v) kvs) key (negb w) rc :: below))
+                            else RPanic st1
+                | None => RPanic st1
+                end
             | None => ROk (set_refs st1 (marked st) (pending st ++ [(rid, SMapSet id key)]))
             end
         | FNode _ _ =>
@@ -652,8 +692,8 @@ Section Lib.
     end.
 
   (* BuilderEventReceiver.GetBuiltObject *)
-  Definition built (st : mstate) : uval :=
-    dehole (match tobj st with TSlot v => v | TDone v => v end).
+  Definition built_raw (st : mstate) : uval := match tobj st with TSlot v => v | TDone v => v end.
+  Definition built (st : mstate) : uval := dehole (built_raw st).
 
   (* ---- OnError: Context.ArtificiallyTerminate ----
      for len(builderStack) > 1 { CurrentBuilder.BuildArtificiallyEndContainer(ctx) }.
@@ -676,12 +716,8 @@ Section Lib.
       | fr :: below =>
         match art_end_target fr below with
         | None => None
-        | Some tgt =>
-          let r := match tgt with
-                   | FSlice l => notify_done (UList l) (set_stack st below)
-                   | FMap id kvs _ _ _ => notify_done (UMap id kvs) (set_stack st below)
-                   | _ => recv_end [] fr below st
-                   end in
+        | Some _ =>
+          let r := recv_end [] fr below st in
           match r with
           | ROk st1 => terminate f st1
           | RPanic _ => Some false
@@ -701,9 +737,677 @@ Section Lib.
         | None => Hang
         end
     end.
+  (* a placeholder left in the result, or a map inside itself: the value refers to itself
+     (a marked container holding a reference to its own marker); the finite model cuts it off *)
+  Definition built_cyclic (es : list event) : bool :=
+    match run init_state es 0 with
+    | (ROk st, _) => has_hole (built_raw st) || self_nested (built_raw st)
+    | _ => false
+    end.
   Definition panic_index (es : list event) : option N :=
     match run init_state es 0 with
     | (ROk _, _) => None
     | (RPanic _, i) => Some i
     end.
 End Lib.
+
+(* ------------------------------------------------------------------ *)
+(* Library tables (the observations that instantiate url_conv / time_conv) *)
+(* ------------------------------------------------------------------ *)
+
+Fixpoint tab_lookup {A} (k : bytes) (t : list (bytes * A)) : option A :=
+  match t with
+  | [] => None
+  | (k', v) :: r => if bytes_eqb k k' then Some v else tab_lookup k r
+  end.
+Definition url_of_table (t : list (bytes * option bytes)) (x : bytes) : option bytes :=
+  match tab_lookup x t with Some r => r | None => None end.
+Definition time_of_table (t : list (bytes * option (bytes * bytes))) (x : bytes) : option (bytes * bytes) :=
+  match tab_lookup x t with Some r => r | None => None end.
+
+(* ------------------------------------------------------------------ *)
+(* Marshaling the built value again (iterator, default configuration)   *)
+(* ------------------------------------------------------------------ *)
+
+Definition typed_width (t : arrty) : N :=
+  if (t =? AT_Int8) then 1
+  else if (t =? AT_Uint16) || (t =? AT_Int16) then 2
+  else if (t =? AT_Uint32) || (t =? AT_Int32) || (t =? AT_Float32) then 4
+  else 8.
+Definition typed_bytes (t : arrty) (elems : list N) : bytes :=
+  iter_to_bytes (typed_width t) (t =? AT_Float32) elems.
+
+Definition oconcat {A} (l : list (option (list A))) : option (list A) :=
+  fold_right (fun o acc => match o, acc with Some x, Some y => Some (x ++ y) | _, _ => None end) (Some []) l.
+
+(* events between OnVersion and OnEndDocument; None = the iterator panics *)
+Fixpoint iterate_val (v : uval) : option (list event) :=
+  match v with
+  | UNil | UHole _ => Some [ENull]
+  | UBool b => Some [EBool b]
+  | UInt z => Some [EInt z]
+  | UUint n => Some [EPosInt n]
+  | UBigInt _ (Some z) => Some [EBigInt (Some z)]
+  | UBigInt _ None | UBigFloat _ None | UBigDec _ None => Some [ENull]      (* nil pointer *)
+  | UFloat b => Some [EFloat b]
+  | UBigFloat _ (Some f) => Some [EBigFloat (Some f)]
+  | UDec d => Some [EDecimal d]
+  | UBigDec _ (Some d) => Some [EBigDecimal (Some d)]
+  | UStr s => Some [EStringArray AT_String s]
+  | UBytes b => Some [EArray AT_Uint8 (N.of_nat (length b)) b]
+  | UTyped t elems => Some [EArray t (N.of_nat (length elems)) (typed_bytes t elems)]
+  | URid _ out => Some [EStringArray AT_ResourceID out]
+  | UUid b => Some [EUid b]
+  | UMedia mt data => match mt with [] => None | _ => Some [EMedia mt data] end
+  | UTime _ out => Some [ETime out]
+  | UCTime s => Some [ETime s]
+  | UList l => match oconcat (map iterate_val l) with Some es => Some (EList :: es ++ [EEnd]) | None => None end
+  | UMap _ kvs =>
+      match oconcat (map (fun '(k, x) => match iterate_val k, iterate_val x with
+                                         | Some a, Some b => Some (a ++ b) | _, _ => None end) kvs) with
+      | Some es => Some (EMap :: es ++ [EEnd])
+      | None => None
+      end
+  | UNode a ch =>
+      match iterate_val a, oconcat (map iterate_val ch) with
+      | Some ea, Some es => Some (ENode :: ea ++ es ++ [EEnd])
+      | _, _ => None
+      end
+  | UEdge a b c =>
+      (* iterateEdge emits no end-container event *)
+      match iterate_val a, iterate_val b, iterate_val c with
+      | Some ea, Some eb, Some ec => Some (EEdge :: ea ++ eb ++ ec)
+      | _, _, _ => None
+      end
+  end.
+
+Definition iterate_doc (v : uval) : option (list event) :=
+  match iterate_val v with
+  | Some es => Some (EBeginDoc :: EVersion 0 :: es ++ [EEndDoc])
+  | None => None
+  end.
+
+(* ------------------------------------------------------------------ *)
+(* Document data                                                        *)
+(* ------------------------------------------------------------------ *)
+
+Inductive dv :=
+| DNull | DBool (b : bool) | DInt (z : Z) | DNegZero
+| DFloat (bits : N) | DNan (signaling : bool) | DBigFloat (f : bigfloat) | DDec (d : dfloat) | DBigDec (d : dfloat)
+| DUid (b : bytes) | DTime (s : bytes) | DStr (s : bytes) | DRid (s : bytes) | DRemote (s : bytes)
+| DArr (t : arrty) (data : bytes) | DMedia (mt data : bytes)
+| DCustomBin (ct : N) (data : bytes) | DCustomText (ct : N) (data : bytes)
+| DList (l : list dv) | DMap (kvs : list (dv * dv)) | DNode (v : dv) (ch : list dv) | DEdge (a b c : dv)
+| DRecord (name : bytes) (vals : list dv) | DMark (id : bytes) (v : dv) | DRef (id : bytes).
+
+Definition float_dv (b : N) : dv := if f64_is_nan b then DNan (negb (f64_quiet_bit b)) else DFloat b.
+Definition dec_dv (d : dfloat) : dv := match d with DQNan => DNan false | DSNan => DNan true | _ => DDec d end.
+Definition bigdec_dv (d : dfloat) : dv := match d with DQNan => DNan false | DSNan => DNan true | _ => DBigDec d end.
+Definition array_dv (t : arrty) (data : bytes) : dv :=
+  if t =? AT_String then DStr data
+  else if t =? AT_ResourceID then DRid data
+  else if t =? AT_ReferenceRemote then DRemote data
+  else DArr t data.
+
+(* the data a single value event stands for (before the builder sees it) *)
+Definition event_dv (e : event) : option dv :=
+  match e with
+  | ENull | EBigInt None | EBigFloat None | EBigDecimal None => Some DNull
+  | EBool b => Some (DBool b)
+  | ETrue => Some (DBool true)
+  | EFalse => Some (DBool false)
+  | EPosInt n => Some (DInt (Z.of_N n))
+  | ENegInt n => Some (if n =? 0 then DNegZero else DInt (- Z.of_N n))
+  | EInt z => Some (DInt z)
+  | EBigInt (Some z) => Some (DInt z)
+  | EFloat b => Some (float_dv b)
+  | EBigFloat (Some f) => Some (DBigFloat f)
+  | EDecimal d => Some (dec_dv d)
+  | EBigDecimal (Some d) => Some (bigdec_dv d)
+  | ENan s => Some (DNan s)
+  | EUid b => Some (DUid b)
+  | ETime s => Some (DTime s)
+  | EArray t _ data => Some (array_dv t data)
+  | EStringArray t data => Some (array_dv t data)
+  | EMedia mt data => Some (DMedia mt data)
+  | ECustomBin ct data => Some (DCustomBin ct data)
+  | ECustomText ct data => Some (DCustomText ct data)
+  | _ => None
+  end.
+
+(* the scalar a single value event hands to the current builder *)
+Definition event_scalar (e : event) : option scalar :=
+  match e with
+  | ENull => Some SNull
+  | EBool b => Some (SBool b)
+  | ETrue => Some (SBool true)
+  | EFalse => Some (SBool false)
+  | EPosInt n => Some (SUint n)
+  | ENegInt n => Some (negint_scalar n)
+  | EInt z => Some (SInt z)
+  | EBigInt v => Some (SBigInt v)
+  | EFloat b => Some (SFloat b)
+  | EBigFloat v => Some (SBigFloat v)
+  | EDecimal d => Some (SDec d)
+  | EBigDecimal v => Some (SBigDec v)
+  | ENan s => Some (SFloat (if s then signaling_nan_bits else quiet_nan_bits))
+  | EUid b => Some (SUid b)
+  | ETime s => Some (STime s)
+  | EArray t _ data => Some (SArr t data)
+  | EStringArray t data => Some (SStr t data)
+  | EMedia mt data => Some (SMedia mt data)
+  | ECustomBin ct data => Some (SCustomBin ct data)
+  | ECustomText ct data => Some (SCustomText ct data)
+  | _ => None
+  end.
+
+(* ---- arrays delivered in chunks: begin, then chunk headers each followed by data events ---- *)
+Inductive abegin := ABArray (t : arrty) | ABMedia (mt : bytes) | ABCustom (t : arrty) (ct : N).
+Definition abegin_of (e : event) : option abegin :=
+  match e with
+  | EArrayBegin t => Some (ABArray t)
+  | EMediaBegin mt => Some (ABMedia mt)
+  | ECustomBegin t ct => Some (ABCustom t ct)
+  | _ => None
+  end.
+Definition abegin_dv (b : abegin) (data : bytes) : dv :=
+  match b with
+  | ABArray t => array_dv t data
+  | ABMedia mt => DMedia mt data
+  | ABCustom t ct => if t =? AT_CustomText then DCustomText ct data else DCustomBin ct data
+  end.
+Definition abegin_scalar (b : abegin) (data : bytes) : scalar :=
+  match b with
+  | ABArray t => SArr t data
+  | ABMedia mt => SMedia mt data
+  | ABCustom t ct => if t =? AT_CustomText then SCustomText ct data else SCustomBin ct data
+  end.
+Definition abegin_cb (b : abegin) : cbkind :=
+  match b with ABArray t => CBArray t | ABMedia mt => CBMedia mt | ABCustom t ct => CBCustom t ct end.
+(* element size in bytes when whole bytes, else 0 *)
+Definition abegin_elem_bytes (b : abegin) : N :=
+  match b with
+  | ABArray t => let bits := nth (N.to_nat t) array_elem_bits 0 in if bits mod 8 =? 0 then bits / 8 else 0
+  | _ => 1
+  end.
+
+(* all the data of a chunked array, provided the chunk structure is the one the
+   validator accepts: every chunk header [n, more] is followed by data events
+   totalling n elements, the last header has more = false, nothing follows *)
+Fixpoint chunk_data (w : N) (es : list event) (need : N) (last : bool) (acc : bytes) : option bytes :=
+  match es with
+  | [] => if last && (need =? 0) then Some acc else None
+  | EArrayData d :: r =>
+      let n := N.of_nat (length d) in
+      if n <=? need then chunk_data w r (need - n) last (acc ++ d) else None
+  | EArrayChunk n more :: r =>
+      if negb last && (need =? 0) then chunk_data w r (n * w) (negb more) acc else None
+  | _ => None
+  end.
+
+(* ------------------------------------------------------------------ *)
+(* Documents as trees                                                   *)
+(* ------------------------------------------------------------------ *)
+
+Inductive dt :=
+| TLeaf (e : event)                               (* a value given by one event *)
+| TChunked (b : abegin) (body : list event)       (* a value given by begin / chunk / data events *)
+| TList (l : list dt)
+| TMap (kvs : list (dt * dt))
+| TNode (v : dt) (ch : list dt)
+| TEdge (a b c : dt)
+| TRecord (name : bytes) (vals : list dt)
+| TMark (id : bytes) (t : dt)
+| TRef (id : bytes).
+
+Definition begin_event (b : abegin) : event :=
+  match b with ABArray t => EArrayBegin t | ABMedia mt => EMediaBegin mt | ABCustom t ct => ECustomBegin t ct end.
+
+Fixpoint flat (t : dt) : list event :=
+  match t with
+  | TLeaf e => [e]
+  | TChunked b body => begin_event b :: body
+  | TList l => EList :: flat_map flat l ++ [EEnd]
+  | TMap kvs => EMap :: flat_map (fun '(k, v) => flat k ++ flat v) kvs ++ [EEnd]
+  | TNode v ch => ENode :: flat v ++ flat_map flat ch ++ [EEnd]
+  | TEdge a b c => EEdge :: flat a ++ flat b ++ flat c ++ [EEnd]
+  | TRecord name vals => ERecord name :: flat_map flat vals ++ [EEnd]
+  | TMark id t => EMarker id :: flat t
+  | TRef id => [ERefLocal id]
+  end.
+
+(* record type declarations: name and key leaves *)
+Definition rtdecl := (bytes * list dt)%type.
+Definition flat_rt (d : rtdecl) : list event := ERecordType (fst d) :: flat_map flat (snd d) ++ [EEnd].
+Definition doc_events (rts : list rtdecl) (t : dt) : list event :=
+  EBeginDoc :: EVersion 0 :: flat_map flat_rt rts ++ flat t ++ [EEndDoc].
+
+Definition is_trivia (e : event) : bool :=
+  match e with EPadding | EComment _ _ => true | _ => false end.
+Definition strip (es : list event) : list event := filter (fun e => negb (is_trivia e)) es.
+
+(* the data of a tree; None where an event is not a value event or the chunk structure is broken *)
+Definition omap2 {A B} (f : A -> option B) : list A -> option (list B) :=
+  fix go l := match l with
+              | [] => Some []
+              | x :: r => match f x, go r with Some y, Some ys => Some (y :: ys) | _, _ => None end
+              end.
+
+Fixpoint sem (t : dt) : option dv :=
+  match t with
+  | TLeaf e => event_dv e
+  | TChunked b body =>
+      match chunk_data (abegin_elem_bytes b) body 0 false [] with
+      | Some data => Some (abegin_dv b data)
+      | None => None
+      end
+  | TList l => match omap2 sem l with Some ds => Some (DList ds) | None => None end
+  | TMap kvs =>
+      match omap2 (fun '(k, v) => match sem k, sem v with Some a, Some b => Some (a, b) | _, _ => None end) kvs with
+      | Some ds => Some (DMap ds)
+      | None => None
+      end
+  | TNode v ch => match sem v, omap2 sem ch with Some a, Some ds => Some (DNode a ds) | _, _ => None end
+  | TEdge a b c => match sem a, sem b, sem c with Some x, Some y, Some z => Some (DEdge x y z) | _, _, _ => None end
+  | TRecord name vals => match omap2 sem vals with Some ds => Some (DRecord name ds) | None => None end
+  | TMark id t => match sem t with Some d => Some (DMark id d) | None => None end
+  | TRef id => Some (DRef id)
+  end.
+
+(* ---- erasure: records -> maps, references -> targets, markers dropped ---- *)
+Fixpoint zip_kv (ks vs : list dv) : list (dv * dv) :=
+  match ks, vs with
+  | k :: ks', v :: vs' => (k, v) :: zip_kv ks' vs'
+  | _, _ => []
+  end.
+
+(* environment: markers completed so far (document order), already erased *)
+Definition denv := list (bytes * dv).
+Fixpoint env_lookup (id : bytes) (env : denv) : option dv :=
+  match env with
+  | [] => None
+  | (i, d) :: r => if bytes_eqb i id then Some d else env_lookup id r
+  end.
+
+(* erase d in document order; forward references are not resolved here (None) *)
+Section Erase.
+  Variable rts : list (bytes * list dv).        (* record types: key data *)
+
+  Definition erase_list (erase : denv -> dv -> option (dv * denv)) :=
+    fix go (env : denv) (l : list dv) : option (list dv * denv) :=
+      match l with
+      | [] => Some ([], env)
+      | x :: r =>
+        match erase env x with
+        | Some (y, env1) =>
+            match go env1 r with Some (ys, env2) => Some (y :: ys, env2) | None => None end
+        | None => None
+        end
+      end.
+
+  Fixpoint erase (env : denv) (d : dv) : option (dv * denv) :=
+    match d with
+    | DList l => match erase_list erase env l with Some (l', e) => Some (DList l', e) | None => None end
+    | DMap kvs =>
+        let go := fix go (env : denv) (l : list (dv * dv)) : option (list (dv * dv) * denv) :=
+          match l with
+          | [] => Some ([], env)
+          | (k, v) :: r =>
+            match erase env k with
+            | Some (k', e1) =>
+              match erase e1 v with
+              | Some (v', e2) => match go e2 r with Some (r', e3) => Some ((k', v') :: r', e3) | None => None end
+              | None => None
+              end
+            | None => None
+            end
+          end in
+        match go env kvs with Some (l', e) => Some (DMap l', e) | None => None end
+    | DNode v ch =>
+        match erase env v with
+        | Some (v', e1) => match erase_list erase e1 ch with Some (ch', e2) => Some (DNode v' ch', e2) | None => None end
+        | None => None
+        end
+    | DEdge a b c =>
+        match erase env a with
+        | Some (a', e1) =>
+          match erase e1 b with
+          | Some (b', e2) => match erase e2 c with Some (c', e3) => Some (DEdge a' b' c', e3) | None => None end
+          | None => None
+          end
+        | None => None
+        end
+    | DRecord name vals =>
+        match tab_lookup name rts, erase_list erase env vals with
+        | Some keys, Some (vals', e) => Some (DMap (zip_kv keys vals'), e)
+        | _, _ => None
+        end
+    | DMark id v => match erase env v with Some (v', e) => Some (v', (id, v') :: e) | None => None end
+    | DRef id => match env_lookup id env with Some d' => Some (d', env) | None => None end
+    | _ => Some (d, env)
+    end.
+End Erase.
+
+Definition erase_doc (rts : list (bytes * list dv)) (d : dv) : option dv :=
+  match erase rts [] d with Some (d', _) => Some d' | None => None end.
+
+(* ---- the data of a built value (what marshaling it again produces) ---- *)
+Fixpoint to_dv (v : uval) : dv :=
+  match v with
+  | UNil | UHole _ => DNull
+  | UBool b => DBool b
+  | UInt z => DInt z
+  | UUint n => DInt (Z.of_N n)
+  | UBigInt _ (Some z) => DInt z
+  | UBigInt _ None | UBigFloat _ None | UBigDec _ None => DNull
+  | UFloat b => float_dv b
+  | UBigFloat _ (Some f) => DBigFloat f
+  | UDec d => dec_dv d
+  | UBigDec _ (Some d) => bigdec_dv d
+  | UStr s => DStr s
+  | UBytes b => DArr AT_Uint8 b
+  | UTyped t elems => DArr t (typed_bytes t elems)
+  | URid _ out => DRid out
+  | UUid b => DUid b
+  | UMedia mt data => DMedia mt data
+  | UTime _ out => DTime out
+  | UCTime s => DTime s
+  | UList l => DList (map to_dv l)
+  | UMap _ kvs => DMap (map (fun '(k, x) => (to_dv k, to_dv x)) kvs)
+  | UNode a ch => DNode (to_dv a) (map to_dv ch)
+  | UEdge a b c => DEdge (to_dv a) (to_dv b) (to_dv c)
+  end.
+
+(* ---- equality of document data; maps are unordered ---- *)
+Definition remove_first {A} (p : A -> bool) : list A -> option (list A) :=
+  fix go l := match l with
+              | [] => None
+              | x :: r => if p x then Some r else match go r with Some r' => Some (x :: r') | None => None end
+              end.
+
+Fixpoint dv_eqb (a b : dv) : bool :=
+  let list_eq := fix go (l m : list dv) : bool :=
+    match l, m with
+    | [], [] => true
+    | x :: l', y :: m' => dv_eqb x y && go l' m'
+    | _, _ => false
+    end in
+  match a, b with
+  | DNull, DNull | DNegZero, DNegZero => true
+  | DBool x, DBool y | DNan x, DNan y => Bool.eqb x y
+  | DInt x, DInt y => (x =? y)%Z
+  | DFloat x, DFloat y => x =? y
+  | DBigFloat x, DBigFloat y => bigfloat_eqb x y
+  | DDec x, DDec y | DBigDec x, DBigDec y => dfloat_eqb x y
+  | DUid x, DUid y | DTime x, DTime y | DStr x, DStr y | DRid x, DRid y | DRemote x, DRemote y
+  | DRef x, DRef y => bytes_eqb x y
+  | DArr t1 d1, DArr t2 d2 => (t1 =? t2) && bytes_eqb d1 d2
+  | DMedia m1 d1, DMedia m2 d2 => bytes_eqb m1 m2 && bytes_eqb d1 d2
+  | DCustomBin c1 d1, DCustomBin c2 d2 | DCustomText c1 d1, DCustomText c2 d2 => (c1 =? c2) && bytes_eqb d1 d2
+  | DList l, DList m => list_eq l m
+  | DMap l, DMap m =>
+      (fix go (l : list (dv * dv)) (m : list (dv * dv)) : bool :=
+         match l with
+         | [] => match m with [] => true | _ => false end
+         | (k, v) :: l' =>
+           match remove_first (fun '(k2, v2) => dv_eqb k k2 && dv_eqb v v2) m with
+           | Some m' => go l' m'
+           | None => false
+           end
+         end) l m
+  | DNode v1 c1, DNode v2 c2 => dv_eqb v1 v2 && list_eq c1 c2
+  | DEdge a1 b1 c1, DEdge a2 b2 c2 => dv_eqb a1 a2 && dv_eqb b1 b2 && dv_eqb c1 c2
+  | DRecord n1 v1, DRecord n2 v2 => bytes_eqb n1 n2 && list_eq v1 v2
+  | DMark i1 v1, DMark i2 v2 => bytes_eqb i1 i2 && dv_eqb v1 v2
+  | _, _ => false
+  end.
+
+(* ---- comparing a built value with what the implementation built ----
+   identities are not observable; Go ranges over maps in random order *)
+Fixpoint uval_eqb (a b : uval) : bool :=
+  let list_eq := fix go (l m : list uval) : bool :=
+    match l, m with
+    | [], [] => true
+    | x :: l', y :: m' => uval_eqb x y && go l' m'
+    | _, _ => false
+    end in
+  match a, b with
+  | UNil, UNil => true
+  | UBool x, UBool y => Bool.eqb x y
+  | UInt x, UInt y => (x =? y)%Z
+  | UUint x, UUint y | UFloat x, UFloat y => x =? y
+  | UBigInt _ x, UBigInt _ y => option_eqb Z.eqb x y
+  | UBigFloat _ x, UBigFloat _ y => option_eqb bigfloat_eqb x y
+  | UDec x, UDec y => dfloat_eqb x y
+  | UBigDec _ x, UBigDec _ y => option_eqb dfloat_eqb x y
+  | UStr x, UStr y | UBytes x, UBytes y | URid _ x, URid _ y | UUid x, UUid y | UCTime x, UCTime y => bytes_eqb x y
+  | UTyped t1 e1, UTyped t2 e2 => (t1 =? t2) && list_eqb N.eqb e1 e2
+  | UMedia m1 d1, UMedia m2 d2 => bytes_eqb m1 m2 && bytes_eqb d1 d2
+  | UTime _ o1, UTime _ o2 => bytes_eqb o1 o2
+  | UList l, UList m => list_eq l m
+  | UMap _ l, UMap _ m =>
+      (fix go (l : list (uval * uval)) (m : list (uval * uval)) : bool :=
+         match l with
+         | [] => match m with [] => true | _ => false end
+         | (k, v) :: l' =>
+           match remove_first (fun '(k2, v2) => uval_eqb k k2 && uval_eqb v v2) m with
+           | Some m' => go l' m'
+           | None => false
+           end
+         end) l m
+  | UNode v1 c1, UNode v2 c2 => uval_eqb v1 v2 && list_eq c1 c2
+  | UEdge a1 b1 c1, UEdge a2 b2 c2 => uval_eqb a1 a2 && uval_eqb b1 b2 && uval_eqb c1 c2
+  | _, _ => false
+  end.
+
+(* ------------------------------------------------------------------ *)
+(* Correspondence cases                                                 *)
+(* ------------------------------------------------------------------ *)
+
+(* what the implementation did with the events: built a value; or panicked at
+   event [i] and OnError returned (or panicked); or panicked and OnError never returned;
+   ICyclic: the value built refers to itself *)
+Inductive impl_outcome := IOk (v : uval) | ICyclic | IErr (i : N) | IHang (i : N).
+
+Inductive build_case :=
+(* events fed to a fresh BuilderEventReceiver; observed url / time conversions; outcome;
+   and, when a value was built and could be iterated, the iterator's events for it *)
+| BuildCase (es : list event)
+            (urls : list (bytes * option bytes)) (times : list (bytes * option (bytes * bytes)))
+            (impl : impl_outcome) (iter : option (list event)).
+
+Fixpoint has_big_map (v : uval) : bool :=
+  match v with
+  | UList l => existsb has_big_map l
+  | UMap _ kvs => (1 <? length kvs)%nat || existsb (fun '(k, x) => has_big_map k || has_big_map x) kvs
+  | UNode a ch => has_big_map a || existsb has_big_map ch
+  | UEdge a b c => has_big_map a || has_big_map b || has_big_map c
+  | _ => false
+  end.
+
+Definition build_case_ok (c : build_case) : bool :=
+  match c with
+  | BuildCase es urls times impl iter =>
+    let uc := url_of_table urls in
+    let tc := time_of_table times in
+    match build_untyped uc tc es, impl with
+    | Ok v, IOk w =>
+        uval_eqb v w &&
+        match iter with
+        | None => true
+        | Some ies =>
+          (* with at most one entry per map the event order is determined; otherwise only the
+             shape check below is made by the harness on its side *)
+          match iterate_doc v with
+          | None => match ies with [] => true | _ => false end      (* [] = the iterator panicked *)
+          | Some mes => if has_big_map v then true else list_eqb event_eqb mes ies
+          end
+        end
+    | Ok _, ICyclic => built_cyclic uc tc es
+    | Err, IErr i | Hang, IHang i => option_eqb N.eqb (panic_index uc tc es) (Some i)
+    | _, _ => false
+    end
+  end.
+
+(* ------------------------------------------------------------------ *)
+(* The fragment the untyped builder handles (C06, partial)              *)
+(* ------------------------------------------------------------------ *)
+
+(* Where a value stands: map key, node value, anywhere else. *)
+Inductive pos := PGen | PKey | PNodeVal.
+Definition is_key (p : pos) : bool := match p with PKey => true | _ => false end.
+
+(* chunk events through which Context.AddArrayData completes exactly once, at the
+   last event (elements of one byte): the data delivered *)
+Fixpoint chunks_ok (es : list event) (rem : N) (more : bool) (acc : bytes) : option bytes :=
+  match es with
+  | EArrayChunk n m :: r =>
+      if two64 <=? n then None
+      else if negb m && (n =? 0) then match r with [] => Some acc | _ => None end
+      else chunks_ok r n m acc
+  | EArrayData d :: r =>
+      let k := N.of_nat (length d) in
+      if rem <? k then None
+      else if negb more && (rem - k =? 0) then match r with [] => Some (acc ++ d) | _ => None end
+      else chunks_ok r (rem - k) more (acc ++ d)
+  | _ => None
+  end.
+Definition chunked_data (body : list event) : option bytes :=
+  match body with
+  | EArrayChunk _ _ :: _ => chunks_ok body 0 true []
+  | _ => None
+  end.
+
+Fixpoint mem_id (id : bytes) (ids : list bytes) : bool :=
+  match ids with [] => false | i :: r => bytes_eqb i id || mem_id id r end.
+
+(* equality of the data of two map keys of the kinds the fragment allows; other kinds count as equal *)
+Definition dkey_eqb (a b : dv) : bool :=
+  match a, b with
+  | DBool x, DBool y => Bool.eqb x y
+  | DInt x, DInt y => (x =? y)%Z
+  | DUid x, DUid y | DTime x, DTime y | DStr x, DStr y => bytes_eqb x y
+  | DBool _, (DInt _ | DUid _ | DTime _ | DStr _) | DInt _, (DBool _ | DUid _ | DTime _ | DStr _)
+  | DUid _, (DBool _ | DInt _ | DTime _ | DStr _) | DTime _, (DBool _ | DInt _ | DUid _ | DStr _)
+  | DStr _, (DBool _ | DInt _ | DUid _ | DTime _) => false
+  | _, _ => true
+  end.
+Fixpoint dkeys_distinct (l : list dv) : bool :=
+  match l with
+  | [] => true
+  | x :: r => negb (existsb (dkey_eqb x) r) && dkeys_distinct r
+  end.
+
+Section Fragment.
+  Variable url_conv : bytes -> option bytes.
+  Variable time_conv : bytes -> option (bytes * bytes).
+
+  (* the conversion through the Go library gives the same text back *)
+  Definition url_ok (s : bytes) : bool :=
+    match url_conv s with Some o => bytes_eqb o s | None => false end.
+  Definition time_ok (key : bool) (s : bytes) : bool :=
+    match time_conv s with
+    | None => true
+    | Some (i, o) => bytes_eqb o s && (negb key || bytes_eqb i s)
+    end.
+
+  Definition wide_width (t : arrty) : N :=
+    if (t =? AT_Uint16) || (t =? AT_Int16) then 2
+    else if (t =? AT_Uint32) || (t =? AT_Int32) then 4
+    else if (t =? AT_Uint64) || (t =? AT_Int64) || (t =? AT_Float64) then 8
+    else if t =? AT_Int8 then 1
+    else 0.
+  Definition array_ok (t : arrty) (data : bytes) : bool :=
+    (t =? AT_Uint8) || (t =? AT_String) || ((t =? AT_ResourceID) && url_ok data)
+    || (negb (wide_width t =? 0) && bytes_wfb data && (N.of_nat (length data) mod wide_width t =? 0))
+    || ((t =? AT_Float32) && bytes_wfb data && (N.of_nat (length data) mod 4 =? 0)
+        && forallb (fun f => negb (is_snan32 f)) (bytes_to_slice 4 data)).
+  Definition stringlike_ok (t : arrty) (data : bytes) : bool :=
+    (t =? AT_String) || ((t =? AT_ResourceID) && url_ok data).
+
+  Definition leaf_ok (p : pos) (e : event) : bool :=
+    match e with
+    | EBool _ | ETrue | EFalse | EPosInt _ | EInt _ => true
+    | ENegInt n => negb (n =? 0) && (negb (is_key p) || (n <=? max_int64))
+    | EUid b => (length b =? 16)%nat
+    | ETime s => time_ok (is_key p) s
+    | EArray t _ data => if is_key p then t =? AT_String else array_ok t data
+    | EStringArray t data => if is_key p then t =? AT_String else stringlike_ok t data
+    | ENull | EBigInt _ | EFloat _ | EBigFloat _ | EDecimal _ | EBigDecimal _ | ENan _ => negb (is_key p)
+    | EMedia mt _ => negb (is_key p) && match mt with [] => false | _ => true end
+    | _ => false
+    end.
+
+  (* arrays in chunks: one-byte elements only (strings, resource identifiers, bytes, media) *)
+  Definition chunked_ok (p : pos) (b : abegin) (body : list event) : bool :=
+    match chunked_data body, chunk_data 1 body 0 false [] with
+    | Some data, Some data' =>
+        bytes_eqb data data' &&
+        match b with
+        | ABArray t => if is_key p then t =? AT_String
+                       else (t =? AT_String) || (t =? AT_Uint8) || ((t =? AT_ResourceID) && url_ok data)
+        | ABMedia mt => negb (is_key p) && match mt with [] => false | _ => true end
+        | ABCustom _ _ => false
+        end
+    | _, _ => false
+    end.
+
+  Definition is_container (t : dt) : bool :=
+    match t with TList _ | TMap _ | TNode _ _ => true | _ => false end.
+
+  (* the data of a map key, its marker removed *)
+  Definition key_data (k : dt) : option dv :=
+    match k with TMark _ k' => sem k' | _ => sem k end.
+
+  (* supp ids p t: t is in the fragment at position p when the markers [ids] are complete;
+     returns the markers complete after t *)
+  Fixpoint supp (ids : list bytes) (p : pos) (t : dt) : option (list bytes) :=
+    let supp_list := fix go (ids : list bytes) (l : list dt) : option (list bytes) :=
+      match l with
+      | [] => Some ids
+      | x :: r => match supp ids PGen x with Some ids1 => go ids1 r | None => None end
+      end in
+    match t with
+    | TLeaf e => if leaf_ok p e then Some ids else None
+    | TChunked b body => if chunked_ok p b body then Some ids else None
+    | TList l => if is_key p then None else supp_list ids l
+    | TMap kvs =>
+        if is_key p then None
+        else if negb (match omap2 key_data (map fst kvs) with Some ds => dkeys_distinct ds | None => false end) then None
+        else (fix go (ids : list bytes) (l : list (dt * dt)) : option (list bytes) :=
+                match l with
+                | [] => Some ids
+                | (k, v) :: r =>
+                  match supp ids PKey k with
+                  | Some ids1 => match supp ids1 PGen v with Some ids2 => go ids2 r | None => None end
+                  | None => None
+                  end
+                end) ids kvs
+    | TNode v ch =>
+        if is_key p then None
+        else match supp ids PNodeVal v with Some ids1 => supp_list ids1 ch | None => None end
+    | TMark id t' =>
+        if mem_id id ids then None
+        else match t' with
+             | TMark _ _ | TRef _ => None
+             | _ =>
+               match p, is_container t' with
+               | PNodeVal, false => None        (* a marked scalar as node value derails the builder stack *)
+               | _, _ =>
+                 match supp ids (if is_key p then PKey else PGen) t' with
+                 | Some ids1 => if mem_id id ids1 then None else Some (id :: ids1)
+                 | None => None
+                 end
+               end
+             end
+    | TRef id => if is_key p then None else if mem_id id ids then Some ids else None
+    | TEdge _ _ _ | TRecord _ _ => None
+    end.
+
+  (* a whole document of the fragment: no record types, the top-level value in the fragment *)
+  Definition supported6 (rts : list rtdecl) (t : dt) : bool :=
+    match rts, supp [] PGen t with
+    | [], Some _ => true
+    | _, _ => false
+    end.
+End Fragment.
